@@ -99,7 +99,7 @@ def call_args(name, p):
         g = {i: i % 2 for i in k}
         tot = sum(k.values())
         off = p.get("mix", 0.5) * tot / 3
-        om = np.array([[tot / 2 - off, off], [off, tot / 2 - off]])
+        om = np.array([[tot / 2 - off, off], [off, tot / 2 - off]], dtype=float)  # a float array: handed to both calls as the same object
         return (k, dict(k), g, dict(g), om), {}
     if name == "watts_strogatz_hypergraph":
         return (p["n"], p["d"], 2, p["l"], p["p"]), {}
@@ -174,7 +174,7 @@ def cases(draw, tier):
     return {"fn": name, "params": params, "seed": draw(st.integers(0, 10**6)), "schedule": draw(st.lists(pert, max_size=8)),
             "pre": draw(st.lists(st.integers(0, 99), max_size=2)),
             # the seed as a Python int or as a numpy integer (judged only where the function accepts that type at all)
-            "seedtype": draw(st.sampled_from(["int", "int", "int", "np.int64", "np.uint32"]))}
+            "seedtype": draw(st.sampled_from(["int", "int", "int", "np.int64", "np.uint32"])), "positional": draw(st.integers(0, 3)) == 0}
 
 
 def strategy(tier):
@@ -227,6 +227,10 @@ OTHER_DEFAULTS = {
 }
 
 
+# functions without **kwargs whose whole signature can be bound positionally
+POSITIONAL_OK = {n for n, f_ in SEEDED.items() if all(p_.kind in (p_.POSITIONAL_OR_KEYWORD, p_.POSITIONAL_ONLY) for p_ in inspect.signature(f_).parameters.values())}
+
+
 def run_case(case, ctx):
     name = case["fn"]
     f = SEEDED[name]
@@ -251,9 +255,26 @@ def run_case(case, ctx):
     # the global generators start from a state that is a function of the case (replayable)
     random.seed(case.get("init", int(seed)) + 17)
     np.random.seed((case.get("init", int(seed)) + 17) % (2**32))
+    # "the same arguments": the very same objects are handed to every call (a function that modifies what it is given changes
+    # its own later input) - except for the one generator that documents an in-place repair of its degree dict
+    if name != "uniform_hypergraph_configuration_model":
+        _dc = copy.deepcopy
+        copy_ = lambda x: x  # noqa: E731
+    else:
+        copy_ = copy.deepcopy
+    positional = bool(case.get("positional")) and name in POSITIONAL_OK
+
+    def invoke(sd, a=None, k=None):
+        a = copy_(args) if a is None else a
+        k = copy_(kw) if k is None else k
+        if positional:  # every argument, the seed included, in the documented positional order
+            b = inspect.signature(f).bind(*a, seed=sd, **k)
+            return f(*b.args, **b.kwargs) if not b.kwargs else f(*a, seed=sd, **k)
+        return f(*a, seed=sd, **k)
+
     for s in case["pre"]:  # earlier calls to the same function must not matter either
-        f(*copy.deepcopy(args), seed=s, **copy.deepcopy(kw))
-    o1 = f(*copy.deepcopy(args), seed=seed, **copy.deepcopy(kw))
+        invoke(s)
+    o1 = invoke(seed)
     s1 = out_snap(o1)
     for op in case["schedule"]:
         if op[0] == "py_random":
@@ -266,7 +287,7 @@ def run_case(case, ctx):
         elif op[0] == "np_seed":
             np.random.seed(op[1])
         elif op[0] == "same_fn_other_seed":
-            f(*copy.deepcopy(args), seed=op[1], **copy.deepcopy(kw))
+            invoke(op[1])
         elif op[0] == "same_fn_other_args":
             if name in OTHER_DEFAULTS:
                 a2, k2 = call_args(name, OTHER_DEFAULTS[name])
@@ -278,7 +299,7 @@ def run_case(case, ctx):
         elif op[0] == "other_fn" and op[1] in SEEDED and op[1] in OTHER_DEFAULTS:
             a2, k2 = call_args(op[1], OTHER_DEFAULTS[op[1]])
             SEEDED[op[1]](*a2, seed=op[2], **k2)
-    o2 = f(*copy.deepcopy(args), seed=seed, **copy.deepcopy(kw))
+    o2 = invoke(seed)
     s2 = out_snap(o2)
     ctx.check(s1 == s2, ("seed-determinism", name), lambda: "seed %d schedule %r: first %r second %r" % (seed, case["schedule"], str(s1)[:300], str(s2)[:300]))
     ctx.event("fn:" + name)
